@@ -225,6 +225,13 @@ class Runner:
             t = self.top(1)
             if not t or not self.room(): raise Skip
             self._save('s%d' % len(self.memory), t[0]); self.ops.add('save')
+        elif op == 'save_many':
+            # scale: memory indices around the signed-byte boundary and close to the 256-slot limit
+            t = self.top(1)
+            if not t or len(self.memory) + step[1] > 250: raise Skip
+            for _ in range(step[1]):
+                self._save('s%d' % len(self.memory), t[0])
+            self.ops.add('save'); self.ops.add('save_many')
         elif op == 'load':
             if not self.memory: raise Skip
             self._load('l', self.memory[step[1] % len(self.memory)]); self.ops.add('load')
@@ -271,7 +278,7 @@ class Runner:
 
 
 STEP_KINDS = ['atom', 'atom', 'pattern', 'binary', 'binder', 'subst', 'schema', 'refl', 'weaken', 'generalize',
-              'instantiate_top', 'instantiate_top', 'save', 'load', 'load', 'pop', 'publish', 'publish', 'phase', 'phase', 'mk_subst']
+              'instantiate_top', 'instantiate_top', 'save', 'load', 'load', 'pop', 'publish', 'publish', 'phase', 'phase', 'mk_subst', 'save_many']
 
 
 def draw_step(draw, r: Runner):
@@ -324,6 +331,9 @@ def draw_step(draw, r: Runner):
             else:
                 plugs.append(gens.expand_sugared(wf_sugared(draw, 1), defs))
         return ['instantiate_top', keys, [gens.to_json(g) for g in plugs]]
+    if k == 'save_many':
+        if draw(st.integers(0, 2)): k = 'load'
+        else: return ['save_many', draw(st.sampled_from([3, 12, 60, 125, 131, 200]))]
     if k == 'save': return ['save']
     if k == 'load': return ['load', draw(st.integers(0, 10 ** 6))]
     if k == 'pop': return ['pop']
